@@ -85,6 +85,7 @@ func main() {
 	swapped := 0
 	uniq := 0
 	tickers := 0
+	autoSends := 0
 	for _, pkg := range pkgs {
 		dir := filepath.Join(absRepo, pkg)
 		ents, err := os.ReadDir(dir)
@@ -258,6 +259,44 @@ func main() {
 					})
 				}
 			}
+			// a scheduling point before every plain channel send (a send that is the
+			// communication of a select case is gated instead): the hand-placed hooks
+			// of /repo cover the windows known when they were written; these cover
+			// whatever the working tree contains now, including code that moved out of
+			// a critical section
+			for _, d := range f.Decls {
+				fd, ok := d.(*ast.FuncDecl)
+				if !ok || fd.Body == nil {
+					continue
+				}
+				inComm := map[ast.Stmt]bool{}
+				ast.Inspect(fd.Body, func(n ast.Node) bool {
+					if cc, ok := n.(*ast.CommClause); ok && cc.Comm != nil {
+						inComm[cc.Comm] = true
+					}
+					return true
+				})
+				var visitList func(list []ast.Stmt)
+				ast.Inspect(fd.Body, func(n ast.Node) bool {
+					var list []ast.Stmt
+					switch b := n.(type) {
+					case *ast.BlockStmt:
+						list = b.List
+					case *ast.CaseClause:
+						list = b.Body
+					case *ast.CommClause:
+						list = b.Body
+					}
+					for _, st := range list {
+						if ss, ok := st.(*ast.SendStmt); ok && !inComm[st] {
+							edits = append(edits, edit{off(ss.Pos()), off(ss.Pos()), fmt.Sprintf("simhook.Yield(%q); ", "send:"+pkg+"."+fd.Name.Name)})
+							autoSends++
+						}
+					}
+					return true
+				})
+				_ = visitList
+			}
 			// every other range over a map: sorted keys, rotation chosen by the scheduler
 			ast.Inspect(f, func(n ast.Node) bool {
 				r, ok := n.(*ast.RangeStmt)
@@ -370,5 +409,5 @@ func main() {
 	if err := os.WriteFile(filepath.Join(absOut, "overlay.json"), js, 0o644); err != nil {
 		die("%v", err)
 	}
-	fmt.Printf("overlaygen: %d files rewritten, %d lock fields swapped\n", len(replace), swapped)
+	fmt.Printf("overlaygen: %d files rewritten, %d lock fields swapped, %d yields before channel sends\n", len(replace), swapped, autoSends)
 }
